@@ -50,7 +50,7 @@
 #endif
 
 /* ------------------------------------------------------------------ bookkeeping */
-static int g_compare = 0, g_nperturb = 2, g_compare_caps = 1;
+static int g_compare = 0, g_nperturb = 2, g_compare_caps = 1, g_print_cfg = 0;
 static int g_host_arch = 0;
 static uint64_t g_cfg_seed = 0;
 static int g_cap_now = -1, g_frame_now = 0;
@@ -62,12 +62,14 @@ static vrng g_pr;                  /* perturbation stream (seeded per configurat
 static const char *KNAME[6] = { "silk_NSQ", "silk_NSQ_del_dec", "silk_VAD_GetSA_Q8", "silk_VQ_WMat_EC", "silk_inner_product_FLP", "celt_pitch_xcorr" };
 static long g_nsq_paths[8], g_excluded_sat = 0, g_obs_order10 = 0, g_probe_order10 = 0;        /* 0 voiced 1 unvoiced 2 fast10_16 3 states3/4 4 warped */
 
+static const char *g_class = "";      /* defect-class tag appended to the replay command (read by known_findings matching) */
 static void viol(const char *exp_, const char *obs)
 {
    g_viol++;
    if (g_viol <= 12)
-      printf("V c15_codec cfg %llu %d %d | %s | %s (cap=%d frame=%d)\n", (unsigned long long)g_cfg_seed, g_nperturb,
-             g_compare_caps, exp_, obs, g_cap_now, g_frame_now);
+      printf("V c15_codec cfg %llu %d %d%s%s | %s | %s (cap=%d frame=%d)\n", (unsigned long long)g_cfg_seed, g_nperturb,
+             g_compare_caps, g_class[0] ? " class=" : "", g_class, exp_, obs, g_cap_now, g_frame_now);
+   g_class = "";
 }
 static void note_level(int k, int level) { g_calls[k][level & 7]++; g_levels_seen |= 1u << (level & 7); }
 
@@ -149,6 +151,13 @@ static void nsq_compare_case(int deldec, const nsq_case *c, const char *what, si
          if (sat) { g_excluded_sat++; d = NULL; }
       }
       if (d && probe10) { g_obs_order10++; d = NULL; }
+      if (d && !perturbed && deldec && tab[lvl] == (nsq_fn)silk_NSQ_del_dec_avx2) {
+         /* live state: tag the one defect class that is understood (see above): the portable result is in the wrap domain */
+         int q, sat = 0, nn = c->enc.nb_subfr * c->enc.subfr_length;
+         for (q = 0; q < nn; q++) if (pa[q] >= 30 || pa[q] <= -30) sat = 1;
+         for (q = 0; q < 2 * MAX_FRAME_LENGTH; q++) if (a.xq[q] == 32767 || a.xq[q] == -32768) sat = 1;
+         if (sat) g_class = "nsq-del-dec-avx2-wrap-domain";
+      }
       if (d) {
          char eb[200], ob[360];
          snprintf(eb, sizeof eb, "%s: SIMD function at table index %d bit-identical to the portable function (%s)", KNAME[deldec], lvl, what);
@@ -584,6 +593,9 @@ static void run_cfg(uint64_t sub, int compare_caps)
    r.s = sub; g_cfg_seed = sub; g_compare_caps = compare_caps;
    g_pr.s = sub ^ 0xC15C15C15ULL;
    gen_cfg(&r, &c);
+   if (g_print_cfg)
+      printf("# cfg %llu: Fs=%d ch=%d app=%d mode=%d bitrate=%d complexity=%d frame=%d samples x %d frames bw=%d vbr=%d fec=%d loss=%d signal=%d pcm-kind=%d dtx=%d lsb=%d\n",
+             (unsigned long long)sub, c.Fs, c.ch, c.app, c.mode, c.bitrate, c.complexity, c.frame, c.nframes, c.bw, c.vbr, c.fec, c.loss, c.signal, c.sigkind, c.dtx, c.lsb);
    total = c.frame * c.nframes;
    pcm = (opus_int16 *)malloc(sizeof(opus_int16) * total * c.ch);
    gen_pcm(&r, &c, pcm, total);
@@ -713,7 +725,7 @@ int main(int argc, char **argv)
       g_nperturb = atoi(argv[4]);
       for (i = 0; i < n; i++) run_cfg(vnext(&r), atoi(argv[5]));
    } else if (argc >= 5 && !strcmp(argv[1], "cfg")) {
-      g_nperturb = atoi(argv[3]);
+      g_nperturb = atoi(argv[3]); g_print_cfg = 1;
       run_cfg(strtoull(argv[2], 0, 10), atoi(argv[4]));
    } else { fprintf(stderr, "usage: c15_codec wrap <seed> <nconfigs> <nperturb> <compare-caps> | cfg <subseed> <nperturb> <compare-caps>\n"); return 64; }
    report();
